@@ -29,8 +29,9 @@ var (
 
 type file struct {
 	*fileData
-	offset int64
-	flag   int
+	offset     int64
+	flag       int
+	closedPath string // remembers the path for error messages once Close has dropped fileData
 }
 
 type fileData struct {
@@ -171,10 +172,19 @@ func (f *fileData) info() hackpadfs.FileInfo {
 }
 
 func (f *file) Close() error {
-	if f.fileData == nil {
-		return hackpadfs.ErrClosed
+	if err := f.checkClosed("close"); err != nil {
+		return err
 	}
+	f.closedPath = f.path
 	f.fileData = nil
+	return nil
+}
+
+// checkClosed returns an ErrClosed path error if this handle was closed. Every method must call it before touching fileData.
+func (f *file) checkClosed(op string) error {
+	if f.fileData == nil {
+		return &hackpadfs.PathError{Op: op, Path: f.closedPath, Err: hackpadfs.ErrClosed}
+	}
 	return nil
 }
 
@@ -192,12 +202,18 @@ func (f *file) updateModTime() {
 }
 
 func (f *file) Read(p []byte) (n int, err error) {
+	if err := f.checkClosed("read"); err != nil {
+		return 0, err
+	}
 	n, err = f.ReadAt(p, f.offset)
 	f.offset += int64(n)
 	return
 }
 
 func (f *file) ReadBlob(length int) (blob blob.Blob, n int, err error) {
+	if err := f.checkClosed("read"); err != nil {
+		return nil, 0, err
+	}
 	blob, n, err = f.ReadBlobAt(length, f.offset)
 	f.offset += int64(n)
 	return
@@ -212,6 +228,9 @@ func (f *file) ReadAt(p []byte, off int64) (n int, err error) {
 }
 
 func (f *file) ReadBlobAt(length int, off int64) (b blob.Blob, n int, err error) {
+	if err := f.checkClosed("readat"); err != nil {
+		return nil, 0, err
+	}
 	max := f.currentSize()
 	if off >= max {
 		return nil, 0, io.EOF
@@ -236,6 +255,9 @@ func (f *file) ReadBlobAt(length int, off int64) (b blob.Blob, n int, err error)
 }
 
 func (f *file) Seek(offset int64, whence int) (int64, error) {
+	if err := f.checkClosed("seek"); err != nil {
+		return 0, err
+	}
 	newOffset := f.offset
 	switch whence {
 	case io.SeekStart:
@@ -260,6 +282,9 @@ func (f *file) Write(p []byte) (n int, err error) {
 }
 
 func (f *file) WriteBlob(p blob.Blob) (n int, err error) {
+	if err := f.checkClosed("write"); err != nil {
+		return 0, err
+	}
 	n, err = f.writeBlobAt("write", p, f.offset)
 	if f.flag&hackpadfs.FlagAppend != 0 && n > 0 {
 		f.offset = f.currentSize() // appending leaves the offset at the new end of the file
@@ -274,6 +299,9 @@ func (f *file) WriteAt(p []byte, off int64) (n int, err error) {
 }
 
 func (f *file) WriteBlobAt(p blob.Blob, off int64) (n int, err error) {
+	if err := f.checkClosed("writeat"); err != nil {
+		return 0, err
+	}
 	if f.flag&hackpadfs.FlagAppend != 0 {
 		// mirrors os.File: positional writes are refused on append-only handles instead of silently appending
 		return 0, &hackpadfs.PathError{Op: "writeat", Path: f.path, Err: errors.New("invalid use of WriteAt on file opened with O_APPEND")}
@@ -320,11 +348,17 @@ func (f *file) writeBlobAt(op string, p blob.Blob, off int64) (n int, err error)
 }
 
 func (f *file) Stat() (hackpadfs.FileInfo, error) {
+	if err := f.checkClosed("stat"); err != nil {
+		return nil, err
+	}
 	_ = f.currentSize() // report the current size, not the one recorded at open
 	return fileInfo{Record: &f.runOnceFileRecord, Path: f.path}, nil
 }
 
 func (f *file) Truncate(size int64) error {
+	if err := f.checkClosed("truncate"); err != nil {
+		return err
+	}
 	if f.Mode().IsDir() {
 		return &hackpadfs.PathError{Op: "truncate", Path: f.path, Err: hackpadfs.ErrIsDir}
 	}
@@ -358,6 +392,9 @@ func (f *file) Truncate(size int64) error {
 }
 
 func (f *file) ReadDir(n int) ([]hackpadfs.DirEntry, error) {
+	if err := f.checkClosed("readdir"); err != nil {
+		return nil, err
+	}
 	dirNames, err := f.ReadDirNames()
 	if err != nil {
 		return nil, &hackpadfs.PathError{Op: "readdir", Path: f.path, Err: err}
@@ -416,6 +453,9 @@ func (d *dirEntry) Info() (hackpadfs.FileInfo, error) {
 }
 
 func (f *file) Chmod(mode hackpadfs.FileMode) error {
+	if err := f.checkClosed("chmod"); err != nil {
+		return err
+	}
 	newMode := (f.Mode() & ^chmodBits) | (mode & chmodBits)
 	f.modeOverride = &newMode
 	return f.save()
